@@ -34,11 +34,28 @@ def _state(ip, dom):
     return out
 
 
+def _uninit_name(t):
+    if P.is_pw(t) or not t.is_monomial():
+        return None
+    syms = [a for a in t.atoms()]
+    if len(syms) == 1 and syms[0][0] == 'sym' and syms[0][1].startswith('uninit') and t.equals(N.sym(syms[0][1])):
+        return syms[0][1]
+    return None
+
+
 def _compare_states(ip, got, want):
     bad = []
     for k in sorted(want):
         if k not in got:
             bad.append('%s missing' % k)
+            continue
+        ug, uw = _uninit_name(got[k]), _uninit_name(want[k])
+        if ug and uw:
+            # two scratch buffers (np.empty): contents are unspecified on both sides, only the shape can differ
+            dg, dw = ip.lib.UNINIT_DIM.get(ug), ip.lib.UNINIT_DIM.get(uw)
+            if dg is None or dw is None or P.compare(dg, dw)[0]:
+                bad.append('%s is an uninitialised buffer of length %s but a fresh Domain has length %s' % (
+                    k, P.show(dg) if dg is not None else '?', P.show(dw) if dw is not None else '?'))
             continue
         d, _ = P.compare(got[k], want[k])
         if d:
@@ -239,30 +256,42 @@ def rule_linearity(ctx, rule='R07.l'):
             ctx.holds(rule, construct, 'T(a f + b g) == a T(f) + b T(g)', m.loc())
         else:
             ctx.violation(rule, construct, 'nonlinear', 'T(af+bg) - aT(f) - bT(g) = %s' % N.show(lhs - rhs), m.loc())
-        # purity and state independence: the argument and the Domain are left untouched, the result is a new array, and a
-        # second transform (of g after f) equals the transform of g by a fresh Domain
+        # purity and state independence: the argument is left untouched, the Domain is observably the same afterwards (a
+        # scratch buffer that was allocated uninitialised may hold anything), the result is a new array that the Domain does
+        # not keep, and a second transform (of g after f) gives what a fresh Domain gives while the first result stays put
         arr_f = Arr(N.sym('f'), 'array', ip)
         e0 = len(ip.events)
-        before = {k_: (v_.t if isinstance(v_, (Arr, Num)) else None) for k_, v_ in dom.attrs.items()}
+        before = _state(ip, dom)
         out_f = ip.call(ip.find_method(dom, nm), [arr_f], {})
         out_g = ip.call(ip.find_method(dom, nm), [Arr(N.sym('g'), 'array2', ip)], {})
         bad = []
         for e in ip.events[e0:]:
             if e['kind'] == 'write' and (e['target'] or '').startswith('array'):
                 bad.append('writes its argument in place at %s' % e['loc'])
-            elif e['kind'] in ('write', 'bind') and (e['target'] or '').startswith('self'):
-                bad.append('modifies the Domain (%s) at %s' % (e['target'], e['loc']))
-        root = out_f.base if isinstance(out_f, View) else out_f
+        root = out_f
+        while isinstance(root, View):
+            root = root.base
+        held = [k_ for k_, v_ in dom.attrs.items() if v_ is root]
         if root is arr_f or (isinstance(root, Arr) and not root.fresh):
             bad.append('returns (a view of) an existing array instead of a new one')
+        elif held:
+            bad.append('returns the Domain\'s own array Domain.%s (every result of this Domain is the same memory)' % held[0])
         if out_f is out_g or (isinstance(out_g, Arr) and isinstance(out_f, Arr) and out_g is out_f):
             bad.append('two calls return the same array')
-        for k_, v_ in dom.attrs.items():
-            if isinstance(v_, (Arr, Num)) and before.get(k_) is not None and not P.is_pw(v_.t) and not v_.t.equals(before[k_]):
+        after = _state(ip, dom)
+        for k_ in sorted(before):
+            if _uninit_name(before[k_]):
+                continue
+            if k_ not in after or P.compare(after[k_], before[k_])[0]:
                 bad.append('Domain.%s changes during a transform' % k_)
-        if not _norm(ip, ip.term_of(out_g)[0], L).equals(T(N.sym('g'))):
-            bad.append('the transform of g after a transform of f differs from the transform of g alone')
-        if not _norm(ip, ip.term_of(out_f)[0], L).equals(T(N.sym('f'))):
+        ip2, dom2, L2, d2 = _fresh(ctx)
+        ip2.declare('g', 'curve')
+        ip2.declare('f', 'curve')
+        alone_g = _norm(ip2, ip2.term_of(ip2.call(ip2.find_method(dom2, nm), [Arr(N.sym('g'), 'array', ip2)], {}))[0], L2)
+        alone_f = _norm(ip2, ip2.term_of(ip2.call(ip2.find_method(dom2, nm), [Arr(N.sym('f'), 'array', ip2)], {}))[0], L2)
+        if not _norm(ip, ip.term_of(out_g)[0], L).equals(alone_g):
+            bad.append('the transform of g after a transform of f differs from the transform of g by a fresh Domain')
+        if not _norm(ip, ip.term_of(out_f)[0], L).equals(alone_f):
             bad.append('the first result changes when the transform is called again')
         if bad:
             ctx.violation('R07.p', construct, 'purity', '; '.join(sorted(set(bad))), m.loc())
@@ -333,7 +362,7 @@ def rule_matrixarray_transforms(ctx, rule='R07.m'):
             if ma.attrs['space'].v != ('Space', target):
                 bad.append('space flag is %r afterwards%s' % (ma.attrs['space'].v, where))
             evs = ip.events[e0:]
-            writes = [i for i, x in enumerate(evs) if x['kind'] == 'write']
+            writes = [i for i, x in enumerate(evs) if x['kind'] == 'write' and (x['target'] or '').startswith('marray')]
             binds = [i for i, x in enumerate(evs) if x['kind'] == 'bind' and x['target'] == 'marray.space']
             if not binds:
                 bad.append('space flag is never assigned' + where)
